@@ -253,8 +253,9 @@ macro_rules! c05_var_i8 {
     };
 }
 
-/// C05.2 at large degree: overflow freedom only (no per-message bookkeeping, keeps the
-/// formula small).  Values in [-127,127].
+/// C05.2 at large degree: overflow freedom only (no reference sum: that would be an adder-chain
+/// miter).  Kani's overflow checks on the code's own i16 accumulation are the assertion; values
+/// in [-127,127].
 #[macro_export]
 macro_rules! c05_var_i8_big {
     ($name:ident, $ty:ty, $d:expr, $unw:expr) => {
@@ -264,12 +265,9 @@ macro_rules! c05_var_i8_big {
             let mut a = <$ty>::new();
             let inp = $crate::macros::any_i8m();
             let mut msgs = [Message { source: 0usize, value: 0i8 }; D];
-            let mut total: i32 = inp as i32;
             let mut j = 0;
             while j < D {
-                let v = $crate::macros::any_i8m();
-                total += v as i32;
-                msgs[j] = Message { source: j, value: v };
+                msgs[j] = Message { source: j, value: $crate::macros::any_i8m() };
                 j += 1;
             }
             let mut n = 0usize;
@@ -281,10 +279,9 @@ macro_rules! c05_var_i8_big {
             assert!(n == D);
             assert!(!m128);
             assert!(r != -128);
-            // saturating sum (deg-1 clipping does not apply at this degree)
-            assert!(r as i32 == $crate::refmodels::clip127(total));
-            kani::cover!(total > 20000);
-            kani::cover!(total < -20000);
+            kani::cover!(r == 127);
+            kani::cover!(r == -127);
+            kani::cover!(r == 0);
         }}
     };
 }
@@ -577,6 +574,1058 @@ macro_rules! c05_layered_f {
             assert!(vars[0] == vars0[0] && vars[1] == vars0[1]);
             kani::cover!(cm[0].value > 0.0);
             kani::cover!(cm[0].value < 0.0);
+        }}
+    };
+}
+
+// =====================================================================================
+// C01 success => codeword, failure => non-codeword, iteration count.  One harness per
+// implementation name x matrix x iteration limit; all LLRs symbolic with |x| <= 1e30.
+// =====================================================================================
+#[macro_export]
+macro_rules! c01_body {
+    ($impl:ident, $hfn:ident, $syn:ident, $n:expr, $limit:expr, $cov_iter:expr) => {{
+        const N: usize = $n;
+        const LIMIT: usize = $limit;
+        let mut llrs = [0.0f64; N];
+        let mut i = 0;
+        while i < N { llrs[i] = $crate::macros::any_f64_1e30(); i += 1; }
+        let mut dec = DecoderImplementation::$impl.build_decoder($hfn());
+        let res = dec.decode(&llrs, LIMIT);
+        let mut sign = [0u8; N];
+        let mut i = 0;
+        while i < N { sign[i] = if llrs[i] <= 0.0 { 1 } else { 0 }; i += 1; }
+        let s0 = $syn(&sign);
+        match &res {
+            Ok(o) => {
+                assert!(o.codeword.len() == N);
+                assert!($syn(&o.codeword));
+                assert!(o.iterations <= LIMIT);
+                assert!((o.iterations == 0) == s0);
+                if o.iterations == 0 {
+                    let mut i = 0;
+                    while i < N { assert!(o.codeword[i] == sign[i]); i += 1; }
+                }
+            }
+            Err(o) => {
+                assert!(o.codeword.len() == N);
+                assert!(o.iterations == LIMIT);
+                assert!(!s0);
+                if LIMIT >= 1 { assert!(!$syn(&o.codeword)); }
+            }
+        }
+        kani::cover!(matches!(&res, Ok(o) if o.iterations == 0));
+        kani::cover!(res.is_err());
+        if $cov_iter { kani::cover!(matches!(&res, Ok(o) if o.iterations >= 1)); }
+        core::mem::forget(dec);
+        core::mem::forget(res);
+    }};
+}
+
+#[macro_export]
+macro_rules! c01_i8 {
+    ($name:ident, $impl:ident, $hfn:ident, $syn:ident, $n:expr, $limit:expr, $cov_iter:expr, $unw:expr) => {
+        $crate::with_table_stubs! { $unw,
+        fn $name() { $crate::c01_body!($impl, $hfn, $syn, $n, $limit, $cov_iter) }}
+    };
+}
+#[macro_export]
+macro_rules! c01_f {
+    ($name:ident, $impl:ident, $hfn:ident, $syn:ident, $n:expr, $limit:expr, $cov_iter:expr, $unw:expr) => {
+        $crate::with_contract_stubs! { $unw,
+        fn $name() { $crate::c01_body!($impl, $hfn, $syn, $n, $limit, $cov_iter) }}
+    };
+}
+
+// =====================================================================================
+// C03 generic decoders == textbook schedules for a checker-supplied arithmetic
+// =====================================================================================
+#[macro_export]
+macro_rules! c03_sched {
+    ($name:ident, $sched:ident, $reffn:ident, $hfn:ident, $hb:ident, $r:expr, $n:expr, $limit:expr, $unw:expr) => {
+        #[kani::proof]
+        #[kani::unwind($unw)]
+        fn $name() {
+            const N: usize = $n;
+            const R: usize = $r;
+            const LIMIT: usize = $limit;
+            let mut k = [0i32; N];
+            let mut llrs = [0.0f64; N];
+            let mut i = 0;
+            while i < N {
+                let v: i32 = kani::any();
+                kani::assume(v >= -(1 << 20) && v <= (1 << 20));
+                k[i] = v;
+                llrs[i] = v as f64;
+                i += 1;
+            }
+            let mut dec = ldpc_toolbox::decoder::$sched::Decoder::new($hfn(), $crate::minsum::MinSumI32::default());
+            let res = dec.decode(&llrs, LIMIT);
+            let (ok, word, it) = $crate::refmodels::$reffn::<R, N>(&$hb, &k, LIMIT);
+            let (rok, o) = match &res { Ok(o) => (true, o), Err(o) => (false, o) };
+            assert!(rok == ok);
+            assert!(o.iterations == it);
+            assert!(o.codeword.len() == N);
+            let mut i = 0;
+            while i < N { assert!(o.codeword[i] == word[i]); i += 1; }
+            kani::cover!(ok && it == 0);
+            kani::cover!(!ok);
+            if LIMIT >= 1 { kani::cover!(ok && it == LIMIT); }
+            core::mem::forget(dec);
+            core::mem::forget(res);
+        }
+    };
+}
+
+// =====================================================================================
+// C02 core: Gauss-Jordan reduction over GF(2), every entry of an R x N matrix symbolic
+// =====================================================================================
+#[macro_export]
+macro_rules! c02_gauss {
+    ($name:ident, $r:expr, $n:expr, $unw:expr) => {
+        #[kani::proof]
+        #[kani::unwind($unw)]
+        fn $name() {
+            const R: usize = $r;
+            const N: usize = $n;
+            let mut a = Array2::<GF2>::zeros((R, N));
+            let mut b = [[false; N]; R];
+            let mut i = 0;
+            while i < R {
+                let mut j = 0;
+                while j < N {
+                    let x: bool = kani::any();
+                    b[i][j] = x;
+                    a[[i, j]] = if x { GF2::one() } else { GF2::zero() };
+                    j += 1;
+                }
+                i += 1;
+            }
+            let res = gauss_reduction(&mut a);
+            // reference: the left R x R block is singular iff some non-empty set of its rows
+            // sums to zero
+            let mut singular = false;
+            let mut mask = 1usize;
+            while mask < (1 << R) {
+                let mut zero = true;
+                let mut j = 0;
+                while j < R {
+                    let mut s = false;
+                    let mut i = 0;
+                    while i < R { if (mask >> i) & 1 == 1 { s ^= b[i][j]; } i += 1; }
+                    if s { zero = false; }
+                    j += 1;
+                }
+                if zero { singular = true; }
+                mask += 1;
+            }
+            assert!(res.is_err() == singular);
+            if res.is_ok() {
+                // [I | X] ...
+                let mut i = 0;
+                while i < R {
+                    let mut j = 0;
+                    while j < R {
+                        assert!(a[[i, j]].is_one() == (i == j));
+                        assert!(a[[i, j]].is_one() || a[[i, j]].is_zero());
+                        j += 1;
+                    }
+                    i += 1;
+                }
+                // ... with B * X == C for the input [B | C]
+                let mut i = 0;
+                while i < R {
+                    let mut j = R;
+                    while j < N {
+                        let mut s = false;
+                        let mut k = 0;
+                        while k < R { s ^= b[i][k] && a[[k, j]].is_one(); k += 1; }
+                        assert!(s == b[i][j]);
+                        assert!(a[[i, j]].is_one() || a[[i, j]].is_zero());
+                        j += 1;
+                    }
+                    i += 1;
+                }
+            }
+            kani::cover!(res.is_ok());
+            kani::cover!(res.is_err());
+            kani::cover!(res.is_ok() && !b[0][0]);
+            core::mem::forget(a);
+        }
+    };
+}
+
+/// GF(2) field operations: all operand values.
+#[macro_export]
+macro_rules! c02_gf2 {
+    ($name:ident) => {
+        #[kani::proof]
+        #[kani::unwind(4)]
+        fn $name() {
+            let x: bool = kani::any();
+            let y: bool = kani::any();
+            let g = |b: bool| if b { GF2::one() } else { GF2::zero() };
+            assert!((g(x) + g(y)) == g(x ^ y));
+            assert!((g(x) - g(y)) == g(x ^ y));
+            assert!((g(x) * g(y)) == g(x && y));
+            assert!((g(x) / GF2::one()) == g(x));
+            assert!(g(x).is_one() == x && g(x).is_zero() == !x);
+            let mut z = g(x); z += g(y); assert!(z == g(x ^ y));
+            let mut z = g(x); z *= g(y); assert!(z == g(x && y));
+            kani::cover!(x && y);
+        }
+    };
+}
+
+/// Division by zero panics (for the given dividend).
+#[macro_export]
+macro_rules! c02_gf2_div0 {
+    ($name:ident, $x:expr) => {
+        #[kani::proof]
+        #[kani::unwind(4)]
+        #[kani::should_panic]
+        fn $name() {
+            let g = if $x { GF2::one() } else { GF2::zero() };
+            let _ = g / GF2::zero();
+        }
+    };
+}
+
+// =====================================================================================
+// C09 core: row echelon form over GF(2), every entry of an R x N matrix symbolic
+// =====================================================================================
+#[macro_export]
+macro_rules! c09_echelon {
+    ($name:ident, $r:expr, $n:expr, $unw:expr) => {
+        #[kani::proof]
+        #[kani::unwind($unw)]
+        fn $name() {
+            const R: usize = $r;
+            const N: usize = $n;
+            let mut a = Array2::<GF2>::zeros((R, N));
+            let mut b = [[false; N]; R];
+            let mut i = 0;
+            while i < R {
+                let mut j = 0;
+                while j < N {
+                    let x: bool = kani::any();
+                    b[i][j] = x;
+                    a[[i, j]] = if x { GF2::one() } else { GF2::zero() };
+                    j += 1;
+                }
+                i += 1;
+            }
+            row_echelon_form(&mut a);
+            let mut e = [[false; N]; R];
+            let mut i = 0;
+            while i < R {
+                let mut j = 0;
+                while j < N {
+                    assert!(a[[i, j]].is_one() || a[[i, j]].is_zero());
+                    e[i][j] = a[[i, j]].is_one();
+                    j += 1;
+                }
+                i += 1;
+            }
+            // (1) echelon shape: leading columns strictly increase, zero rows at the bottom
+            let mut lead = [N; R];
+            let mut i = 0;
+            while i < R {
+                let mut j = N;
+                while j > 0 { j -= 1; if e[i][j] { lead[i] = j; } }
+                i += 1;
+            }
+            let mut i = 1;
+            while i < R {
+                assert!(lead[i] == N || lead[i] > lead[i - 1]);
+                if lead[i - 1] == N { assert!(lead[i] == N); }
+                i += 1;
+            }
+            // (2) row equivalence, both directions: every output row is a combination of input
+            // rows and every input row is a combination of output rows
+            let mut i = 0;
+            while i < R {
+                let mut found_out = false;
+                let mut found_in = false;
+                let mut mask = 0usize;
+                while mask < (1 << R) {
+                    let mut eq_out = true;
+                    let mut eq_in = true;
+                    let mut j = 0;
+                    while j < N {
+                        let mut s_in = false;
+                        let mut s_out = false;
+                        let mut k = 0;
+                        while k < R {
+                            if (mask >> k) & 1 == 1 { s_in ^= b[k][j]; s_out ^= e[k][j]; }
+                            k += 1;
+                        }
+                        if s_in != e[i][j] { eq_out = false; }
+                        if s_out != b[i][j] { eq_in = false; }
+                        j += 1;
+                    }
+                    if eq_out { found_out = true; }
+                    if eq_in { found_in = true; }
+                    mask += 1;
+                }
+                assert!(found_out);
+                assert!(found_in);
+                i += 1;
+            }
+            // (3) rank test used by the conversion: last row non-zero <=> input has full row rank
+            let mut dependent = false;
+            let mut mask = 1usize;
+            while mask < (1 << R) {
+                let mut zero = true;
+                let mut j = 0;
+                while j < N {
+                    let mut s = false;
+                    let mut k = 0;
+                    while k < R { if (mask >> k) & 1 == 1 { s ^= b[k][j]; } k += 1; }
+                    if s { zero = false; }
+                    j += 1;
+                }
+                if zero { dependent = true; }
+                mask += 1;
+            }
+            assert!((lead[R - 1] != N) == !dependent);
+            // (4) full rank: the pivot columns form an invertible R x R submatrix of the INPUT
+            if !dependent {
+                let mut mask = 1usize;
+                while mask < (1 << R) {
+                    let mut zero = true;
+                    let mut p = 0;
+                    while p < R {
+                        let mut s = false;
+                        let mut k = 0;
+                        while k < R { if (mask >> k) & 1 == 1 { s ^= b[k][lead[p]]; } k += 1; }
+                        if s { zero = false; }
+                        p += 1;
+                    }
+                    assert!(!zero);
+                    mask += 1;
+                }
+            }
+            kani::cover!(!dependent);
+            kani::cover!(dependent);
+            kani::cover!(!dependent && lead[R - 1] == N - 1 && lead[0] > 0);
+            core::mem::forget(a);
+        }
+    };
+}
+
+// =====================================================================================
+// C15 interleaver: index law and inverse, concrete shape (C columns, R rows), contents
+// symbolic
+// =====================================================================================
+#[macro_export]
+macro_rules! c15_interleave {
+    ($name:ident, $t:ty, $c:expr, $r:expr, $back:expr, $unw:expr) => {
+        #[kani::proof]
+        #[kani::unwind($unw)]
+        fn $name() {
+            const C: usize = $c;
+            const R: usize = $r;
+            const L: usize = C * R;
+            let x: [$t; L] = kani::any();
+            let il = Interleaver::new(C, $back);
+            let y = il.interleave(&ndarray::arr1(&x));
+            assert!(y.len() == L);
+            let mut r = 0;
+            while r < R {
+                let mut c = 0;
+                while c < C {
+                    // column-write / row-read; columns taken in reverse order when reading backwards
+                    let src = if $back { (C - 1 - c) * R + r } else { c * R + r };
+                    assert!(y[r * C + c] == x[src]);
+                    c += 1;
+                }
+                r += 1;
+            }
+            let z = il.deinterleave(y.as_slice().unwrap());
+            assert!(z.len() == L);
+            let mut i = 0;
+            while i < L { assert!(z[i] == x[i]); i += 1; }
+            // deinterleave then interleave is the identity too
+            let d = il.deinterleave(&x);
+            let w = il.interleave(&ndarray::arr1(&d));
+            let mut i = 0;
+            while i < L { assert!(w[i] == x[i]); i += 1; }
+            kani::cover!(x[0] != x[L - 1]);
+            core::mem::forget(y); core::mem::forget(z); core::mem::forget(d); core::mem::forget(w);
+        }
+    };
+}
+
+// =====================================================================================
+// C15 puncturer: concrete pattern (enumerated by the driver), block size BS, contents
+// symbolic; divisibility errors
+// =====================================================================================
+#[macro_export]
+macro_rules! c15_puncture {
+    ($name:ident, $pat:expr, $p:expr, $bs:expr, $unw:expr) => {
+        #[kani::proof]
+        #[kani::unwind($unw)]
+        fn $name() {
+            const P: usize = $p;
+            const BS: usize = $bs;
+            const L: usize = P * BS;
+            let pat: [bool; P] = $pat;
+            let mut trues = 0usize;
+            let mut k = 0;
+            while k < P { if pat[k] { trues += 1; } k += 1; }
+            let x: [u8; L] = kani::any();
+            let pu = Puncturer::new(&pat);
+            let y = pu.puncture(&ndarray::arr1(&x)).unwrap();
+            assert!(y.len() == trues * BS);
+            // kept blocks, in order
+            let mut j = 0usize;
+            let mut k = 0;
+            while k < P {
+                if pat[k] {
+                    let mut t = 0;
+                    while t < BS { assert!(y[j * BS + t] == x[k * BS + t]); t += 1; }
+                    j += 1;
+                }
+                k += 1;
+            }
+            // depuncture restores the kept blocks and fills the rest with exact zeros
+            let z = pu.depuncture(y.as_slice().unwrap()).unwrap();
+            assert!(z.len() == L);
+            let mut k = 0;
+            while k < P {
+                let mut t = 0;
+                while t < BS {
+                    if pat[k] { assert!(z[k * BS + t] == x[k * BS + t]); } else { assert!(z[k * BS + t] == 0); }
+                    t += 1;
+                }
+                k += 1;
+            }
+            // f64 LLRs: neutral value is exactly +0.0
+            let mut l = [0.0f64; L];
+            let mut i = 0;
+            while i < trues * BS { l[i] = kani::any(); i += 1; }
+            let zf = pu.depuncture(&l[..trues * BS]).unwrap();
+            assert!(zf.len() == L);
+            let mut j = 0usize;
+            let mut k = 0;
+            while k < P {
+                let mut t = 0;
+                while t < BS {
+                    if pat[k] { assert!(zf[k * BS + t].to_bits() == l[j * BS + t].to_bits()); }
+                    else { assert!(zf[k * BS + t].to_bits() == 0); }
+                    t += 1;
+                }
+                if pat[k] { j += 1; }
+                k += 1;
+            }
+            // rate = pattern length / kept blocks
+            assert!(pu.rate() == (P as f64) / (trues as f64));
+            // lengths that do not divide give an error, not a panic / truncated result
+            if P > 1 {
+                let bad = [0u8; L + 1];
+                assert!(pu.puncture(&ndarray::arr1(&bad)).is_err());
+            }
+            if trues > 1 {
+                let badl = [0u8; L + 1];
+                // (trues*BS + 1) is not divisible by trues
+                assert!(pu.depuncture(&badl[..trues * BS + 1]).is_err());
+            }
+            kani::cover!(x[0] != 0);
+            core::mem::forget(y); core::mem::forget(z); core::mem::forget(zf);
+        }
+    };
+}
+
+// =====================================================================================
+// C06 DVB-S2: parameters and tables of one code identifier (hooks)
+// =====================================================================================
+#[macro_export]
+macro_rules! c06_code {
+    ($name:ident, $code:ident, $n:expr, $k:expr, $q:expr, $pin:ident, $prof_hi:expr, $n_hi:expr, $unw:expr) => {
+        #[kani::proof]
+        #[kani::unwind($unw)]
+        fn $name() {
+            let code = Code::$code;
+            let (n, m, k, q) = code.verif_params();
+            // (a) the standard's parameters
+            assert!(n == $n);
+            assert!(k == $k);
+            assert!(q == $q);
+            assert!(m == n - k);
+            assert!(m == 360 * q);
+            let tab = code.verif_addresses();
+            // one address row per group of 360 information bits
+            assert!(tab.len() == k / 360);
+            assert!(tab.len() == $pin.len());
+            // (b) column-degree profile: the first groups have the high degree, the rest degree 3
+            let mut t = 0;
+            let mut hi = 0usize;
+            while t < tab.len() {
+                let l = tab[t].len();
+                assert!(l == $prof_hi || l == 3);
+                if l == $prof_hi && $prof_hi != 3 { hi += 1; }
+                assert!(l == $pin[t].len());
+                t += 1;
+            }
+            assert!(hi == $n_hi);
+            // symbolic (t, i, i2): range, distinctness within a row, equality with the pinned copy
+            let t: usize = kani::any();
+            let i: usize = kani::any();
+            let i2: usize = kani::any();
+            kani::assume(t < tab.len());
+            kani::assume(i < tab[t].len() && i2 < tab[t].len());
+            assert!(tab[t][i] < m);
+            if i != i2 { assert!(tab[t][i] != tab[t][i2]); }
+            assert!(tab[t][i] == $pin[t][i]);
+            kani::cover!(t == tab.len() - 1 && i == 2);
+            kani::cover!(t == 0 && i == 1 && i2 == 0);
+        }
+    };
+}
+
+// =====================================================================================
+// C07 CCSDS: M table, pi_k kernel (fully symbolic k, i), theta/phi tables, C2 circulants
+// =====================================================================================
+#[macro_export]
+macro_rules! c07_pi {
+    ($name:ident, $rate:ident, $size:ident, $m:expr, $mi:expr, $unw:expr) => {
+        #[kani::proof]
+        #[kani::unwind($unw)]
+        fn $name() {
+            const M: usize = $m;
+            let code = AR4JACode::new(AR4JARate::$rate, AR4JAInfoSize::$size);
+            // (a) Blue Book table of M
+            assert!(code.verif_m() == M);
+            let k: usize = kani::any();
+            let i: usize = kani::any();
+            let i2: usize = kani::any();
+            kani::assume(k >= 1 && k <= 26);
+            kani::assume(i < M && i2 < M);
+            let p = code.verif_pi(k, i);
+            assert!(p < M);
+            // quarter structure against the pinned theta / phi tables
+            let j = 4 * i / M;
+            let theta = PIN_THETA[k - 1];
+            let phi = PIN_PHI[$mi][j][k - 1];
+            assert!(AR4JACode::verif_theta(k) == theta);
+            assert!(code.verif_phi(k, j) == phi);
+            assert!(p == (M / 4) * ((theta + j) % 4) + (phi + i) % (M / 4));
+            // permutation: injective on 0..M
+            let p2 = code.verif_pi(k, i2);
+            if i != i2 { assert!(p != p2); }
+            // circulant sub-blocks: inside a quarter, consecutive inputs map to cyclically
+            // consecutive outputs of one quarter
+            if i + 1 < M && 4 * (i + 1) / M == j {
+                let pn = code.verif_pi(k, i + 1);
+                assert!(pn / (M / 4) == p / (M / 4));
+                assert!(pn % (M / 4) == (p % (M / 4) + 1) % (M / 4));
+            }
+            kani::cover!(k == 26 && i == M - 1);
+            kani::cover!(k == 1 && i == 0);
+        }
+    };
+}
+
+#[macro_export]
+macro_rules! c07_c2 {
+    ($name:ident) => {
+        #[kani::proof]
+        #[kani::unwind(20)]
+        fn $name() {
+            let c = C2Code::verif_circulants();
+            let r: usize = kani::any();
+            let b: usize = kani::any();
+            kani::assume(r < 2 && b < 16);
+            let e = c[r][b];
+            assert!(e[0] < 511 && e[1] < 511);
+            assert!(e[0] != e[1]);
+            assert!(e[0] == PIN_C2[r][b][0] && e[1] == PIN_C2[r][b][1]);
+            kani::cover!(r == 1 && b == 15);
+        }
+    };
+}
+
+// =====================================================================================
+// C14 demodulators / modulators
+// =====================================================================================
+#[macro_export]
+macro_rules! c14_bpsk {
+    ($name:ident, $sigma:expr, $scale_bits:expr) => {
+        #[kani::proof]
+        #[kani::unwind(6)]
+        fn $name() {
+            let x0: f64 = kani::any();
+            let x1: f64 = kani::any();
+            kani::assume(x0.is_finite() && x1.is_finite());
+            let b: bool = kani::any();
+            let d = BpskDemodulator::from_noise_sigma($sigma);
+            let y = d.demodulate(&[x0, x1]);
+            assert!(y.len() == 2);
+            // closed form of log P(0|r)/P(1|r) for the mapping 0 -> -1, 1 -> +1: -2 r / sigma^2
+            let s = f64::from_bits($scale_bits);
+            assert!(y[0].to_bits() == (s * x0).to_bits());
+            assert!(y[1].to_bits() == (s * x1).to_bits());
+            // the mapping itself
+            let m = BpskModulator::new().modulate(&ndarray::arr1(&[if b { GF2::one() } else { GF2::zero() }]));
+            assert!(m.len() == 1);
+            assert!(m[0] == if b { 1.0 } else { -1.0 });
+            // noiseless round trip: hard decision (LLR <= 0 means 1) returns the bit
+            let z = d.demodulate(&m);
+            assert!((z[0] <= 0.0) == b);
+            kani::cover!(y[0] > 1.0 && y[1] < -1.0);
+            core::mem::forget(y); core::mem::forget(m); core::mem::forget(z);
+        }
+    };
+}
+
+/// octant (multiples of pi/4) of the DVB-S2 8PSK Gray mapping, first bit = MSB
+#[inline]
+pub fn psk8_octant(b0: bool, b1: bool, b2: bool) -> usize {
+    match (b0, b1, b2) {
+        (false, false, false) => 1,
+        (false, false, true) => 0,
+        (true, false, true) => 7,
+        (true, true, true) => 6,
+        (false, true, true) => 5,
+        (false, true, false) => 4,
+        (true, true, false) => 3,
+        (true, false, false) => 2,
+    }
+}
+
+/// unit vector of an octant; `a` is the value used for sqrt(1/2)
+#[inline]
+pub fn psk8_point(o: usize, a: f64) -> (f64, f64) {
+    match o % 8 {
+        0 => (1.0, 0.0),
+        1 => (a, a),
+        2 => (0.0, 1.0),
+        3 => (-a, a),
+        4 => (-1.0, 0.0),
+        5 => (-a, -a),
+        6 => (0.0, -1.0),
+        _ => (a, -a),
+    }
+}
+
+#[macro_export]
+macro_rules! c14_psk8_mod {
+    ($name:ident) => {
+        #[kani::proof]
+        #[kani::unwind(10)]
+        fn $name() {
+            let bits: [bool; 6] = kani::any();
+            let g = |b: bool| if b { GF2::one() } else { GF2::zero() };
+            let cw = ndarray::arr1(&[g(bits[0]), g(bits[1]), g(bits[2]), g(bits[3]), g(bits[4]), g(bits[5])]);
+            let s = Psk8Modulator::new().modulate(&cw);
+            assert!(s.len() == 2);
+            let a = (0.5f64).sqrt();
+            let mut k = 0;
+            while k < 2 {
+                let o = $crate::macros::psk8_octant(bits[3 * k], bits[3 * k + 1], bits[3 * k + 2]);
+                let (re, im) = $crate::macros::psk8_point(o, a);
+                // bit order: first bit of each triple is the MSB of that symbol
+                assert!(s[k].re == re && s[k].im == im);
+                // unit energy
+                let e = s[k].re * s[k].re + s[k].im * s[k].im - 1.0;
+                assert!(e <= 4.0 * f64::EPSILON && e >= -4.0 * f64::EPSILON);
+                k += 1;
+            }
+            // Gray: flipping one bit moves by one octant for exactly ... neighbours differ in one bit
+            let t: [bool; 3] = kani::any();
+            let u: [bool; 3] = kani::any();
+            let ot = $crate::macros::psk8_octant(t[0], t[1], t[2]);
+            let ou = $crate::macros::psk8_octant(u[0], u[1], u[2]);
+            if (ot + 1) % 8 == ou {
+                let diff = (t[0] != u[0]) as u8 + (t[1] != u[1]) as u8 + (t[2] != u[2]) as u8;
+                assert!(diff == 1);
+            }
+            kani::cover!(s[0].re < 0.0 && s[1].im < 0.0);
+            core::mem::forget(s); core::mem::forget(cw);
+        }
+    };
+}
+
+/// 8PSK demodulator: constellation point + bounded perturbation, CONTRACT stubs for the
+/// max* correction term: hard decisions return the transmitted triple, in modulator bit order.
+#[macro_export]
+macro_rules! c14_psk8_demod {
+    ($name:ident, $sigma:expr, $eps:expr) => {
+        $crate::with_contract_stubs! { 10,
+        fn $name() {
+            let bits: [bool; 3] = kani::any();
+            let ere: f64 = kani::any();
+            let eim: f64 = kani::any();
+            kani::assume(ere >= -$eps && ere <= $eps && eim >= -$eps && eim <= $eps);
+            let g = |b: bool| if b { GF2::one() } else { GF2::zero() };
+            let cw = ndarray::arr1(&[g(bits[0]), g(bits[1]), g(bits[2])]);
+            let s = Psk8Modulator::new().modulate(&cw);
+            let r = Complex::new(s[0].re + ere, s[0].im + eim);
+            let d = Psk8Demodulator::from_noise_sigma($sigma);
+            let l = d.demodulate(&[r]);
+            assert!(l.len() == 3);
+            let mut i = 0;
+            while i < 3 {
+                // positive LLR <=> bit 0
+                if bits[i] { assert!(l[i] < 0.0); } else { assert!(l[i] > 0.0); }
+                i += 1;
+            }
+            kani::cover!(bits[0] && !bits[1] && bits[2]);
+            core::mem::forget(s); core::mem::forget(cw); core::mem::forget(l);
+        }}
+    };
+}
+
+// =====================================================================================
+// Two-run helpers: LLR domain s * 2^-e, s in [-127,127], e in {0,3,30}
+// =====================================================================================
+#[cfg(kani)]
+#[inline]
+pub fn any_llr_dom() -> f64 {
+    let s = any_i8m() as f64;
+    let e: u8 = kani::any();
+    kani::assume(e < 3);
+    if e == 0 { s } else if e == 1 { s * 0.125 } else { s * 9.313225746154785e-10 }
+}
+
+pub trait DomAny { fn dom_any() -> Self; }
+#[cfg(kani)]
+impl DomAny for i8 { fn dom_any() -> i8 { any_i8m() } }
+#[cfg(kani)]
+impl DomAny for i16 { fn dom_any() -> i16 { let v: i16 = kani::any(); kani::assume(v >= -25527 && v <= 25527); v } }
+#[cfg(kani)]
+impl DomAny for f64 { fn dom_any() -> f64 { any_f64_small() } }
+#[cfg(kani)]
+impl DomAny for f32 { fn dom_any() -> f32 { any_f32_small() } }
+
+#[inline]
+pub fn same_output(a: &Result<ldpc_toolbox::decoder::DecoderOutput, ldpc_toolbox::decoder::DecoderOutput>,
+                   b: &Result<ldpc_toolbox::decoder::DecoderOutput, ldpc_toolbox::decoder::DecoderOutput>, n: usize) -> bool {
+    let (oka, oa) = match a { Ok(o) => (true, o), Err(o) => (false, o) };
+    let (okb, ob) = match b { Ok(o) => (true, o), Err(o) => (false, o) };
+    if oka != okb || oa.iterations != ob.iterations || oa.codeword.len() != n || ob.codeword.len() != n { return false; }
+    let mut i = 0;
+    while i < n { if oa.codeword[i] != ob.codeword[i] { return false; } i += 1; }
+    true
+}
+
+// =====================================================================================
+// C10.3 havoc-inductive statelessness: a decoder whose every value cell holds arbitrary
+// data decodes exactly like a fresh one.  $stubs: with_table_stubs | with_surrogate_stubs
+// =====================================================================================
+#[macro_export]
+macro_rules! c10_havoc_flooding {
+    ($name:ident, $stubs:ident, $arith:ty, $hfn:ident, $n:expr, $limit:expr, $unw:expr) => {
+        $crate::$stubs! { $unw,
+        fn $name() {
+            const N: usize = $n;
+            let mut llrs = [0.0f64; N];
+            let mut i = 0;
+            while i < N { llrs[i] = $crate::macros::any_llr_dom(); i += 1; }
+            let mut d1 = ldpc_toolbox::decoder::flooding::Decoder::new($hfn(), <$arith>::new());
+            let mut d2 = ldpc_toolbox::decoder::flooding::Decoder::new($hfn(), <$arith>::new());
+            d1.verif_havoc(
+                || <<$arith as DecoderArithmetic>::Llr as $crate::macros::DomAny>::dom_any(),
+                || <<$arith as DecoderArithmetic>::CheckMessage as $crate::macros::DomAny>::dom_any(),
+                || <<$arith as DecoderArithmetic>::VarMessage as $crate::macros::DomAny>::dom_any());
+            let r1 = d1.decode(&llrs, $limit);
+            let r2 = d2.decode(&llrs, $limit);
+            assert!($crate::macros::same_output(&r1, &r2, N));
+            kani::cover!(r2.is_err());
+            kani::cover!(r2.is_ok());
+            core::mem::forget(d1); core::mem::forget(d2); core::mem::forget(r1); core::mem::forget(r2);
+        }}
+    };
+}
+
+#[macro_export]
+macro_rules! c10_havoc_layered {
+    ($name:ident, $stubs:ident, $arith:ty, $hfn:ident, $n:expr, $limit:expr, $unw:expr) => {
+        $crate::$stubs! { $unw,
+        fn $name() {
+            const N: usize = $n;
+            let mut llrs = [0.0f64; N];
+            let mut i = 0;
+            while i < N { llrs[i] = $crate::macros::any_llr_dom(); i += 1; }
+            let mut d1 = ldpc_toolbox::decoder::horizontal_layered::Decoder::new($hfn(), <$arith>::new());
+            let mut d2 = ldpc_toolbox::decoder::horizontal_layered::Decoder::new($hfn(), <$arith>::new());
+            d1.verif_havoc(
+                || <<$arith as DecoderArithmetic>::VarLlr as $crate::macros::DomAny>::dom_any(),
+                || <<$arith as DecoderArithmetic>::CheckMessage as $crate::macros::DomAny>::dom_any());
+            let r1 = d1.decode(&llrs, $limit);
+            let r2 = d2.decode(&llrs, $limit);
+            assert!($crate::macros::same_output(&r1, &r2, N));
+            kani::cover!(r2.is_err());
+            kani::cover!(r2.is_ok());
+            core::mem::forget(d1); core::mem::forget(d2); core::mem::forget(r1); core::mem::forget(r2);
+        }}
+    };
+}
+
+// =====================================================================================
+// C10.2 real history through the factory: decode(A, limA) then decode(B, 0) on the same
+// object vs decode(B, 0) on a fresh object
+// =====================================================================================
+#[macro_export]
+macro_rules! c10_zero_iter {
+    ($name:ident, $stubs:ident, $impl:ident, $hfn:ident, $n:expr, $lima:expr, $unw:expr) => {
+        $crate::$stubs! { $unw,
+        fn $name() {
+            const N: usize = $n;
+            let mut a = [0.0f64; N];
+            let mut b = [0.0f64; N];
+            let mut i = 0;
+            while i < N { a[i] = $crate::macros::any_llr_dom(); b[i] = $crate::macros::any_llr_dom(); i += 1; }
+            let mut d1 = DecoderImplementation::$impl.build_decoder($hfn());
+            let mut d2 = DecoderImplementation::$impl.build_decoder($hfn());
+            let r0 = d1.decode(&a, $lima);
+            let r1 = d1.decode(&b, 0);
+            let r2 = d2.decode(&b, 0);
+            assert!($crate::macros::same_output(&r1, &r2, N));
+            kani::cover!(r2.is_err());
+            kani::cover!(r2.is_ok());
+            core::mem::forget(d1); core::mem::forget(d2); core::mem::forget(r0); core::mem::forget(r1); core::mem::forget(r2);
+        }}
+    };
+}
+
+// =====================================================================================
+// C10.1 arithmetic scratch: one arithmetic object used for (op A) then (op B) emits for B
+// exactly what a fresh object emits.  ops: 0 = send_check_messages, 1 = layered update
+// =====================================================================================
+#[macro_export]
+macro_rules! c10_scratch {
+    ($name:ident, $stubs:ident, $arith:ty, $opa:expr, $opb:expr, $da:expr, $db:expr, $unw:expr) => {
+        $crate::$stubs! { $unw,
+        fn $name() {
+            type VM = <$arith as DecoderArithmetic>::VarMessage;
+            type CM = <$arith as DecoderArithmetic>::CheckMessage;
+            type VL = <$arith as DecoderArithmetic>::VarLlr;
+            const DA: usize = $da;
+            const DB: usize = $db;
+            // all inputs first
+            let mut va = [<VM as Default>::default(); DA];
+            let mut ca = [<CM as Default>::default(); DA];
+            let mut la = [<VL as Default>::default(); DA];
+            let mut i = 0;
+            while i < DA {
+                va[i] = <VM as $crate::macros::DomAny>::dom_any();
+                ca[i] = <CM as $crate::macros::DomAny>::dom_any();
+                la[i] = <VL as $crate::macros::DomAny>::dom_any();
+                i += 1;
+            }
+            let mut vb = [<VM as Default>::default(); DB];
+            let mut cb = [<CM as Default>::default(); DB];
+            let mut lb = [<VL as Default>::default(); DB];
+            let mut i = 0;
+            while i < DB {
+                vb[i] = <VM as $crate::macros::DomAny>::dom_any();
+                cb[i] = <CM as $crate::macros::DomAny>::dom_any();
+                lb[i] = <VL as $crate::macros::DomAny>::dom_any();
+                i += 1;
+            }
+            let mut used = <$arith>::new();
+            let mut fresh = <$arith>::new();
+            // op A on `used`
+            if $opa == 0 {
+                let mut m = [Message { source: 0usize, value: <VM as Default>::default() }; DA];
+                let mut i = 0;
+                while i < DA { m[i] = Message { source: i, value: va[i] }; i += 1; }
+                used.send_check_messages(&m, |_| {});
+            } else {
+                let mut m = [SentMessage { dest: 0usize, value: <CM as Default>::default() }; DA];
+                let mut vars = la;
+                let mut i = 0;
+                while i < DA { m[i] = SentMessage { dest: i, value: ca[i] }; i += 1; }
+                used.update_check_messages_and_vars(&mut m, &mut vars);
+            }
+            // op B on both
+            if $opb == 0 {
+                let mut m = [Message { source: 0usize, value: <VM as Default>::default() }; DB];
+                let mut i = 0;
+                while i < DB { m[i] = Message { source: i, value: vb[i] }; i += 1; }
+                let mut o1 = [<CM as Default>::default(); DB];
+                let mut o2 = [<CM as Default>::default(); DB];
+                let mut n1 = 0usize;
+                let mut n2 = 0usize;
+                used.send_check_messages(&m, |s| { if s.dest < DB { o1[s.dest] = s.value; } n1 += 1; });
+                fresh.send_check_messages(&m, |s| { if s.dest < DB { o2[s.dest] = s.value; } n2 += 1; });
+                assert!(n1 == n2);
+                let mut i = 0;
+                while i < DB { assert!(o1[i] == o2[i]); i += 1; }
+            } else {
+                let mut m1 = [SentMessage { dest: 0usize, value: <CM as Default>::default() }; DB];
+                let mut i = 0;
+                while i < DB { m1[i] = SentMessage { dest: i, value: cb[i] }; i += 1; }
+                let mut m2 = m1;
+                let mut v1 = lb;
+                let mut v2 = lb;
+                used.update_check_messages_and_vars(&mut m1, &mut v1);
+                fresh.update_check_messages_and_vars(&mut m2, &mut v2);
+                let mut i = 0;
+                while i < DB {
+                    assert!(m1[i].value == m2[i].value && m1[i].dest == m2[i].dest);
+                    assert!(v1[i] == v2[i]);
+                    i += 1;
+                }
+            }
+            kani::cover!(true);
+        }}
+    };
+}
+
+// =====================================================================================
+// C18 names: parsing of an arbitrary string, printing, value list, factory pairing
+// =====================================================================================
+#[macro_export]
+macro_rules! c18_fromstr {
+    ($name:ident, $maxlen:expr, $unw:expr) => {
+        #[kani::proof]
+        #[kani::unwind($unw)]
+        fn $name() {
+            const L: usize = $maxlen;
+            let bytes: [u8; L] = kani::any();
+            let len: usize = kani::any();
+            kani::assume(len <= L);
+            let mut i = 0;
+            while i < L { kani::assume(bytes[i] < 128); i += 1; }
+            let s = unsafe { core::str::from_utf8_unchecked(&bytes[..len]) };
+            let r = <DecoderImplementation as core::str::FromStr>::from_str(s);
+            // membership in the pinned list of 36 names
+            let mut member = 36usize;
+            let mut k = 0;
+            while k < 36 {
+                let nm = NAMES[k].as_bytes();
+                if nm.len() == len {
+                    let mut eq = true;
+                    let mut j = 0;
+                    while j < nm.len() { if nm[j] != bytes[j] { eq = false; } j += 1; }
+                    if eq { member = k; }
+                }
+                k += 1;
+            }
+            match r {
+                Ok(v) => { assert!(member < 36); assert!(v == VARIANTS[member]); }
+                Err(_) => { assert!(member == 36); }
+            }
+            kani::cover!(member == 35);
+            kani::cover!(member == 36 && len == 44);
+            kani::cover!(member == 13);
+        }
+    };
+}
+
+/// byte sink for Display without allocation
+pub struct ByteSink { pub buf: [u8; 64], pub len: usize }
+impl core::fmt::Write for ByteSink {
+    fn write_str(&mut self, s: &str) -> core::fmt::Result {
+        let b = s.as_bytes();
+        let mut i = 0;
+        while i < b.len() {
+            if self.len >= 64 { return Err(core::fmt::Error); }
+            self.buf[self.len] = b[i];
+            self.len += 1;
+            i += 1;
+        }
+        Ok(())
+    }
+}
+
+#[macro_export]
+macro_rules! c18_name {
+    ($name:ident, $idx:expr, $unw:expr) => {
+        #[kani::proof]
+        #[kani::unwind($unw)]
+        fn $name() {
+            use core::fmt::Write;
+            let v = VARIANTS[$idx];
+            let nm = NAMES[$idx];
+            // parses from its string
+            assert!(<DecoderImplementation as core::str::FromStr>::from_str(nm) == Ok(v));
+            // prints back to the identical string
+            let mut sink = $crate::macros::ByteSink { buf: [0u8; 64], len: 0 };
+            assert!(write!(sink, "{}", v).is_ok());
+            assert!(sink.len == nm.len());
+            let b = nm.as_bytes();
+            let mut i = 0;
+            while i < b.len() { assert!(sink.buf[i] == b[i]); i += 1; }
+            kani::cover!(sink.len > 5);
+        }
+    };
+}
+
+/// the command-line value list offers exactly the 36 names, verbatim
+#[macro_export]
+macro_rules! c18_valuelist {
+    ($name:ident, $idx:expr, $unw:expr) => {
+        #[kani::proof]
+        #[kani::unwind($unw)]
+        fn $name() {
+            use clap::ValueEnum;
+            let vs = DecoderImplementation::value_variants();
+            assert!(vs.len() == 36);
+            assert!(vs[$idx] == VARIANTS[$idx]);
+            let pv = vs[$idx].to_possible_value().unwrap();
+            let got = pv.get_name().as_bytes();
+            let b = NAMES[$idx].as_bytes();
+            assert!(got.len() == b.len());
+            let mut i = 0;
+            while i < b.len() { assert!(got[i] == b[i]); i += 1; }
+            kani::cover!(true);
+            core::mem::forget(pv);
+        }
+    };
+}
+
+/// factory row == generic decoder of the documented arithmetic and schedule (two decodes)
+#[macro_export]
+macro_rules! c18_pair {
+    ($name:ident, $stubs:ident, $impl:ident, $sched:ident, $arith:ty, $hfn:ident, $n:expr, $limit:expr, $unw:expr) => {
+        $crate::$stubs! { $unw,
+        fn $name() {
+            const N: usize = $n;
+            let mut llrs = [0.0f64; N];
+            let mut i = 0;
+            while i < N { llrs[i] = $crate::macros::any_llr_dom(); i += 1; }
+            let mut d1 = DecoderImplementation::$impl.build_decoder($hfn());
+            let mut d2 = ldpc_toolbox::decoder::$sched::Decoder::new($hfn(), <$arith>::new());
+            let r1 = d1.decode(&llrs, $limit);
+            let r2 = d2.decode(&llrs, $limit);
+            assert!($crate::macros::same_output(&r1, &r2, N));
+            kani::cover!(r2.is_err());
+            kani::cover!(r2.is_ok());
+            core::mem::forget(d1); core::mem::forget(d2); core::mem::forget(r1); core::mem::forget(r2);
+        }}
+    };
+}
+
+/// width witness: with zero iterations a failing frame is answered with the hard decisions
+/// of the *quantised* input, which exposes the working precision of the named arithmetic.
+/// $w: 64 | 32 | 8
+#[macro_export]
+macro_rules! c18_width {
+    ($name:ident, $stubs:ident, $impl:ident, $w:expr, $unw:expr) => {
+        $crate::$stubs! { $unw,
+        fn $name() {
+            let x = $crate::macros::any_f64_1e30();
+            // chain 2x3; bits (x, 1, 0) violate check 1 whatever x is
+            let llrs = [x, -1.0, 1.0];
+            let mut d = DecoderImplementation::$impl.build_decoder(h_chain2x3());
+            let r = d.decode(&llrs, 0);
+            let exp0: u8 = if $w == 64 { (x <= 0.0) as u8 }
+                else if $w == 32 { ((x as f32) <= 0.0) as u8 }
+                else { ($crate::refmodels::quantize_spec(x) <= 0) as u8 };
+            match &r {
+                Ok(_) => { assert!(false); }
+                Err(o) => {
+                    assert!(o.iterations == 0 && o.codeword.len() == 3);
+                    assert!(o.codeword[0] == exp0 && o.codeword[1] == 1 && o.codeword[2] == 0);
+                }
+            }
+            kani::cover!(x > 0.0 && exp0 == 1);
+            kani::cover!(exp0 == 0);
+            core::mem::forget(d); core::mem::forget(r);
         }}
     };
 }
